@@ -86,7 +86,7 @@ Ranges == <<R, 3 * R, 9 * R>>        \* ExponentialBlockRanges(MinBlockDuration,
 \*   D Delete (Dd deletes something, Db deletes something from a block); H Compact (Hb writes at least one head block); O CompactOOO (Oo with out-of-order data);
 \*   T CleanTombstones (Tt rewrites a block); M Mmap; R Reopen
 KindOf(tok) ==
-   CASE tok = "N" -> "NewAppender" [] tok \in {"A", "Ai", "Aj", "Ao", "Ax"} -> "Append" [] tok = "C" -> "Commit" [] tok = "B" -> "Rollback"
+   CASE tok = "N" -> "NewAppender" [] tok \in {"A", "Ai", "Aj", "Ah", "Ao", "An", "Ax"} -> "Append" [] tok = "C" -> "Commit" [] tok = "B" -> "Rollback"
      [] tok \in {"D", "Dd", "Db"} -> "Delete" [] tok \in {"H", "Hb"} -> "Compact" [] tok \in {"O", "Oo"} -> "CompactOOO"
      [] tok \in {"T", "Tt"} -> "CleanTombstones" [] tok = "M" -> "Mmap" [] tok = "R" -> "Reopen"
 NC == <<"N", "Ai", "C">>
@@ -105,6 +105,10 @@ Script ==
     [] ScriptName = "s3" -> NC \o NC \o NOC \o <<"Oo">> \o NC \o NOC \o NJC \o <<"Hb">> \o NJC \o <<"Hb", "R">>
     \* out-of-order data left in the WBL (also across a restart) and in m-mapped chunks, no compaction (C04)
     [] ScriptName = "d1" -> NC \o NCC \o NOC \o NOC \o NC \o <<"R">> \o NOC \o NC \o NOC
+    \* one head-chunk file holding several m-mapped out-of-order chunks of one series one after the other (run with a single
+    \* series, OOOCap = 2 and a wide window: the 3rd, 5th, 7th ... out-of-order sample m-maps a chunk), WAL and WBL complete (C04)
+    [] ScriptName = "d2" -> <<"N", "Ah", "C">> \o <<"N", "An", "An", "An", "C">> \o <<"N", "An", "An", "C">>
+                            \o <<"N", "An", "An", "C">> \o <<"N", "An", "An", "C">>
     \* shutdown with series that hold completed (m-mappable) head chunks besides the open one, twice; the harness runs
     \* the workloads of this script with EnableMemorySnapshotOnShutdown (Init record: snap) and kills inside Close
     [] ScriptName = "c1" -> NCC \o NCC \o NC \o <<"R">> \o NCC \o <<"R">>
@@ -417,6 +421,11 @@ ScriptAim ==
     [] tok = "Aj" -> r.ret = "ok" /\ ~r.ooo /\ hInit /\ r.t > hMax /\ r.t - hMin > (R \div 2) * 3
                      /\ \A t \in Times : ~(t > hMax /\ t - hMin > (R \div 2) * 3 /\ t < r.t)
     [] tok = "Ao" -> r.ret = "ok" /\ r.ooo
+    \* Ah: accepted in order at the top of the time axis; An: accepted out of order at a timestamp the series does not hold yet
+    [] tok = "Ah" -> r.ret = "ok" /\ ~r.ooo /\ r.t = SetMax(Times)
+    [] tok = "An" -> /\ r.ret = "ok" /\ r.ooo
+                     /\ \A x \in stored[r.s] : x.t # r.t
+                     /\ \A i \in 1..Len(app[r.app].pend) : ~(app[r.app].pend[i].s = r.s /\ app[r.app].pend[i].t = r.t)
     [] tok = "Ax" -> r.ret # "ok"
     [] tok = "Dd" -> stored' # stored
     [] tok = "Db" -> blk' # blk
